@@ -324,6 +324,7 @@ def run(ctx):
     model = ctx.model()
     check_expand_same_asset(ctx, model)
     check_expand_reads_after_reset(ctx, model)
+    check_expand_reset_amount(ctx, model)
     # L9: the v1.0.6 storage migration keeps every flow ledger (funded asset, claimed_amount, emitted_tokens, epochs)
     from .common import check_migration_copy
     check_migration_copy(ctx, model, "C12-L9", "incentive::migrations::migrate_to_v106", "pool_network::incentive::Flow", {"flow_label", "asset_history"})
@@ -456,3 +457,31 @@ def check_expand_reads_after_reset(ctx, model):
                 for a in ct["args"]:
                     work += list(v.origins_of_operand(a, at=v.at_term(cb)))
     ctx.ob("C12-L1", "expand_flow|recorded-total-read-after-the-reset", not bad, "; ".join(bad) if bad else "the inserted cumulative total is computed from reads made after the reset", v.where(inserts[0][0]))
+
+
+def check_expand_reset_amount(ctx, model):
+    """L1 (expand, reset): the amount a reset flow continues with is `<latest funded total> - claimed_amount`, where the
+    funded total comes from the STORED flow (its asset_history, or its own flow_asset.amount when it was never expanded);
+    the expansion offered by the message is added afterwards and must not stand in for it (a never-expanded flow opened
+    for more than FLOW_EXPANSION_LIMIT epochs would otherwise lose its original funding at its first expansion)."""
+    v = ctx.view(EXPAND, "C12-L1")
+    if v is None:
+        return
+    flow_param = _param_of_type(v, "pool_network::asset::Asset")
+    subs = []
+    for b, t in v.calls_to(r"(saturating_sub|checked_sub|as std::ops::Sub>::sub)$"):
+        if len(t["args"]) < 2:
+            continue
+        o1 = v.origins_of_operand(t["args"][1], at=v.at_term(b))
+        if o1 and all(o.proj and o.proj[-1] == "claimed_amount" for o in o1):
+            subs.append((b, t))
+    if not subs:
+        ctx.missing("C12-L1", "`<funded total> - flow.claimed_amount` in expand_flow's reset")
+        return
+    for b, t in subs:
+        os_ = v.origins_of_operand(t["args"][0], at=v.at_term(b), taint=True)
+        from_msg = [o for o in os_ if o.kind == "param" and o.a == flow_param]
+        stored = [o for o in os_ if o.kind in ("load", "call") and ("asset_history" in o.proj or "flow_asset" in o.proj)]
+        ok = bool(stored) and not from_msg
+        ctx.ob("C12-L1", "expand_flow|reset-amount-from-the-stored-flow", ok,
+               "minuend origins: stored flow %d, message's expansion asset %d" % (len(stored), len(from_msg)), v.where(b))
